@@ -1,5 +1,6 @@
 import ElaVerif.Model.Reward
 import ElaVerif.Lemmas.Reward
+import ElaVerif.Lemmas.FloatModel
 import ElaVerif.Gen.C11
 /-!
 # C11 — issuance follows the schedule
@@ -12,8 +13,9 @@ Model: `ElaVerif/Model/Reward.lean`.
   branch) and `assignV2 cr dp …` (AssignCoinbaseTxRewards, first branch), for **arbitrary** share
   functions `cr dp` (Go: `Fixed64(math.Ceil(float64(total) * 0.3 | 0.35))`).
 
-Not proved (checked by the harness oracle on every generated input only): that the float share
-functions are within one sela of 30 % / 35 % for totals below 2^50.
+The accuracy of the float shares is proved over an abstract rounding operator satisfying the
+standard model (`Lemmas/FloatModel.lean`): `C11_share30_within_one_sela`, `C11_share35_within_one_sela`
+(totals below 2^50), and with it the exact-integer coinbase total (`C11_coinbase_total_exact_std`).
 -/
 namespace ElaVerif.C11
 open ElaVerif.Fixed64 ElaVerif.Reward
@@ -155,6 +157,64 @@ theorem C11_construct_rejected_without_dpos_share (cr dp : Fixed64 → Fixed64) 
   simp only [hpos]
   simp [coinbaseV2Check]
 
+/-! ### the oldest rule, heights [0, PublicDPOSHeight)  (compared with the real block builder and
+    validator on a real node by the `gen` stream) -/
+
+/-- an accepted coinbase of that era pays exactly subsidy + fees (64-bit total) -/
+theorem C11_legacy_total (fees reward : Fixed64) (outs : List Out) :
+    coinbaseLegacyCheck fees reward outs = true ↔ sumW (outs.map (·.value)) = fees + reward := by
+  unfold coinbaseLegacyCheck
+  simp only [beq_iff_eq]
+  rw [BitVec.sub_eq_iff_eq_add, BitVec.add_comm]
+
+/-- the block builder's coinbase of that era passes the check, whatever the two truncated shares are -/
+theorem C11_legacy_construct_accepted (tr30 tr35 : Fixed64 → Fixed64) (fees reward : Fixed64)
+    (crAddr minerAddr fndAddr : Addr) :
+    coinbaseLegacyCheck fees reward (assignLegacy tr30 tr35 (fees + reward) crAddr minerAddr fndAddr) = true := by
+  rw [C11_legacy_total]
+  simp only [assignLegacy, List.map, sumW, sumFrom]
+  exact legacy_split _ _ _
+
+/-! ### the float shares under the standard model of rounding -/
+
+open ElaVerif.FloatModel in
+/-- `Fixed64(math.Ceil(float64(t)*0.3))` is `⌈3t/10⌉` or one more, for every rounding operator
+    satisfying the standard model and every total `0 ≤ t < 2^50` sela (11.2 million ELA) -/
+theorem C11_share30_within_one_sela (fl : ℚ → ℚ) (h : StdModel fl) (t : ℤ) (h0 : 0 ≤ t) (h1 : t < 2 ^ 50) :
+    (3 * t + 9) / 10 ≤ ceilShare fl c30 t ∧ ceilShare fl c30 t ≤ (3 * t + 9) / 10 + 1 := by
+  have := share30_bounds fl h t h0 h1
+  omega
+
+open ElaVerif.FloatModel in
+/-- `Fixed64(math.Ceil(float64(t)*0.35))` is within one sela of `⌈35t/100⌉` — either side: the
+    binary64 value of `0.35` is slightly below 35 % -/
+theorem C11_share35_within_one_sela (fl : ℚ → ℚ) (h : StdModel fl) (t : ℤ) (h0 : 0 ≤ t) (h1 : t < 2 ^ 50) :
+    (35 * t + 99) / 100 - 1 ≤ ceilShare fl c35 t ∧ ceilShare fl c35 t ≤ (35 * t + 99) / 100 + 1 := by
+  have := share35_bounds fl h t h0 h1
+  omega
+
+/-- the share functions of the coinbase model, computed the float way -/
+def crStd (fl : ℚ → ℚ) : Fixed64 → Fixed64 := fun x => ofInt (FloatModel.ceilShare fl FloatModel.c30 (toInt x))
+def dpStd (fl : ℚ → ℚ) : Fixed64 → Fixed64 := fun x => ofInt (FloatModel.ceilShare fl FloatModel.c35 (toInt x))
+
+open ElaVerif.FloatModel in
+/-- **With float shares an accepted DPoS-v2 coinbase pays exactly subsidy + fees, as exact
+    integers, and no output is negative** — for totals from 6 sela up to 2^50 sela.
+    (Below 6 sela the two rounded-up shares exceed the total and the miner's part is negative.) -/
+theorem C11_coinbase_total_exact_std (fl : ℚ → ℚ) (h : StdModel fl) (powMode : Bool)
+    (fees reward : Fixed64) (outs : List Out)
+    (h6 : 6 ≤ toInt (fees + reward)) (h50 : toInt (fees + reward) < 2 ^ 50)
+    (hok : coinbaseV2Check (crStd fl) (dpStd fl) powMode fees reward (dpStd fl (fees + reward)) outs = .ok) :
+    sumZ (outs.map (·.value)) = toInt (fees + reward) ∧ ∀ o ∈ outs, 0 ≤ toInt o.value := by
+  have b30 := share30_bounds fl h (toInt (fees + reward)) (by omega) h50
+  have b35 := share35_bounds fl h (toInt (fees + reward)) (by omega) h50
+  have e30 : toInt (crStd fl (fees + reward)) = ceilShare fl c30 (toInt (fees + reward)) := by
+    unfold crStd; rw [Fixed64.toInt_ofInt]; exact bmod_exact _ (by omega) (by omega)
+  have e35 : toInt (dpStd fl (fees + reward)) = ceilShare fl c35 (toInt (fees + reward)) := by
+    unfold dpStd; rw [Fixed64.toInt_ofInt]; exact bmod_exact _ (by omega) (by omega)
+  exact C11_coinbase_total_exact (crStd fl) (dpStd fl) powMode fees reward outs hok
+    (by rw [e30]; omega) (by rw [e35]; omega) (by rw [e30, e35]; omega)
+
 /-! ### the block-level wrapper (checkTxsContext; compared with the real function by the `blk` stream) -/
 
 /-- from `CheckRewardHeight` on, a block is accepted only if its coinbase passes the check … -/
@@ -174,6 +234,16 @@ theorem C11_swallowed_below_check_height (crh h : Nat) (e : CbErr) (hh : h < crh
   simp [blockVerdict, hh]
 
 /-! ### T-gen -/
+
+/-- the constants `c30`, `c35` of the float model are the binary64 values the Go compiler gives
+    the literals `0.3`, `0.35` (sign 0, exponent 0x3FD = 2^-2, 52-bit mantissa); `0.25` is 2^-2 -/
+theorem C11_gen_float_constants :
+    Gen.C11.bits030 / 2 ^ 52 = 0x3FD ∧ Gen.C11.bits035 / 2 ^ 52 = 0x3FD ∧ Gen.C11.bits025 = 0x3FD * 2 ^ 52 ∧
+    FloatModel.c30 = ((2 ^ 52 + Gen.C11.bits030 % 2 ^ 52 : ℕ) : ℚ) / 2 ^ 54 ∧
+    FloatModel.c35 = ((2 ^ 52 + Gen.C11.bits035 % 2 ^ 52 : ℕ) : ℚ) / 2 ^ 54 := by
+  refine ⟨by decide, by decide, by decide, ?_, ?_⟩
+  · unfold FloatModel.c30 Gen.C11.bits030; norm_num
+  · unfold FloatModel.c35 Gen.C11.bits035; norm_num
 
 /-- `CheckRewardHeight ≤ DPoSV2StartHeight` on mainnet, testnet and regnet, and the error handling
     of checkTxsContext is the modelled one -/
